@@ -58,12 +58,160 @@ def _self(attr):
     return 'self.' + attr
 
 
+PARTS, READER, SEEKER = '_parts', '_read_parts', '_seek_part'
+
+
+def _multi(ctx):
+    """the stream is the multi-part design: a list of (handle, start in handle, logical start, length) in self._parts,
+    one private method that positions the handle of the part holding a logical offset (_seek_part) and one that
+    reads across parts (_read_parts); the public methods never touch a handle themselves"""
+    ci = ctx.cls(IO_CLASS)
+    return ci.slots is not None and PARTS in ci.slots and FP not in ci.slots
+
+
 def _io_methods(ctx):
     ci = ctx.cls(IO_CLASS)
-    for a in (FP, OFF, LEN, START):
+    need = (PARTS, OFF, LEN) if _multi(ctx) else (FP, OFF, LEN, START)
+    for a in need:
         if ci.slots is None or a not in ci.slots:
             raise AnalysisError('anchor-vanished slot %s.%s' % (IO_CLASS, a))
+    if _multi(ctx):
+        for m in (READER, SEEKER):
+            if m not in ci.methods:
+                raise AnalysisError('anchor-vanished %s.%s' % (IO_CLASS, m))
     return ci, [m for m in ci.methods.values()]
+
+
+def _is_self_method(call, meth):
+    f = call.func
+    return isinstance(f, ast.Attribute) and f.attr == meth and isinstance(f.value, ast.Name) and f.value.id == 'self'
+
+
+def _is_read(ctx, call):
+    """a read of file bytes as the public methods see it"""
+    if _multi(ctx):
+        return _is_self_method(call, READER)
+    return _is_self_call(call, FP, 'read')
+
+
+def _multi_helpers(ctx, ci):
+    """obligations on the two private methods of the multi-part design (position of every handle read)"""
+    obs = []
+    sk = ci.methods[SEEKER]
+    rd = ci.methods[READER]
+    # --- _seek_part(offset): for (fp, startpos, partstart, partlen) in self._parts: if offset < partstart + partlen:
+    #         fp.seek(startpos + offset - partstart); return fp, partstart + partlen - offset
+    off_param = [p for p in sk.params if p != 'self']
+    loops = [n for n in ctx.own_nodes(sk) if isinstance(n, ast.For) and norm(n.iter) == _self(PARTS) and isinstance(n.target, ast.Tuple) and len(n.target.elts) == 4]
+    ok = False
+    why = 'not the loop `for (fp, startpos, partstart, partlen) in self.%s`' % PARTS
+    if len(off_param) == 1 and len(loops) == 1:
+        o = off_param[0]
+        fp, sp, ps, pl = [norm(e) for e in loops[0].target.elts]
+        ifs = [n for n in loops[0].body if isinstance(n, ast.If)]
+        why = 'the part is not selected by `%s < %s + %s`' % (o, ps, pl)
+        for i in ifs:
+            t = i.test
+            if isinstance(t, ast.Compare) and len(t.ops) == 1 and isinstance(t.ops[0], ast.Lt) and lin(t.left) == Lin({o: 1}) and \
+                    lin(t.comparators[0]) == Lin({ps: 1, pl: 1}):
+                seeks = [c for st in i.body for c in ast.walk(st) if isinstance(c, ast.Call) and isinstance(c.func, ast.Attribute) and c.func.attr == 'seek']
+                rets = [st for st in i.body if isinstance(st, ast.Return)]
+                why = 'the handle of the selected part is not positioned at start-in-handle + (offset - logical start of the part)'
+                if len(seeks) == 1 and norm(seeks[0].func.value) == fp and seeks[0].args and lin(seeks[0].args[0]) == Lin({sp: 1, o: 1, ps: -1}) and \
+                        (len(seeks[0].args) == 1 or norm(seeks[0].args[1]) in ('0', 'os.SEEK_SET', 'io.SEEK_SET')):
+                    why = 'does not return (handle, bytes left in the part)'
+                    if rets and isinstance(rets[0].value, ast.Tuple) and len(rets[0].value.elts) == 2 and norm(rets[0].value.elts[0]) == fp and \
+                            lin(rets[0].value.elts[1]) == Lin({ps: 1, pl: 1, o: -1}):
+                        ok, why = True, ''
+    obs.append(Ob('SA-SEEK.position', '%s|positions the part that holds the offset' % sk.qual, ok, ctx.loc(sk, sk.node), why))
+    # --- __enter__: parts are appended as (fp, fp.tell(), <logical start = length so far>, length), then the length grows by it
+    ent = ci.methods.get('__enter__')
+    if ent is None:
+        raise AnalysisError('anchor-vanished %s.__enter__' % IO_CLASS)
+    apps = [c for c in ctx.own_nodes(ent) if isinstance(c, ast.Call) and isinstance(c.func, ast.Attribute) and c.func.attr == 'append' and norm(c.func.value) == _self(PARTS)]
+    ok, why = False, 'parts are not appended as (handle, handle.tell(), self.%s, length) followed by self.%s += length' % (LEN, LEN)
+    if len(apps) == 1 and apps[0].args and isinstance(apps[0].args[0], ast.Tuple) and len(apps[0].args[0].elts) == 4:
+        e = apps[0].args[0].elts
+        st = ctx.enclosing_stmt(ent, apps[0])
+        par = ctx.parents(ent)
+        blk = None
+        for fld in ('body', 'orelse'):
+            b = getattr(par.get(id(st)), fld, None)
+            if isinstance(b, list) and any(x is st for x in b):
+                blk = b
+        nxt = None
+        if blk is not None:
+            i = [k for k, x in enumerate(blk) if x is st][0]
+            nxt = blk[i + 1] if i + 1 < len(blk) else None
+        if norm(e[1]) == '%s.tell()' % norm(e[0]) and norm(e[2]) == _self(LEN) and isinstance(nxt, ast.AugAssign) and isinstance(nxt.op, ast.Add) and \
+                norm(nxt.target) == _self(LEN) and norm(nxt.value) == norm(e[3]):
+            ok, why = True, ''
+    obs.append(Ob('SA-SEEK.position', '%s|parts are laid out back to back' % ent.qual, ok, ctx.loc(ent, ent.node), why))
+    # --- _read_parts: every handle read is preceded, in its iteration, by fp, left = self._seek_part(off); off starts at
+    #     self._offset and grows by the length of what was read; the size is min(left, wanted)
+    g = ctx.cfg(rd)
+    reads = []
+    for n in g.nodes:
+        for c in _calls_in(n):
+            if isinstance(c.func, ast.Attribute) and c.func.attr in ('read', 'readinto') and isinstance(c.func.value, ast.Name) and c.func.value.id != 'self':
+                reads.append((n, c))
+    if not reads:
+        raise AnalysisError('anchor-vanished: no handle read in %s' % rd.qual)
+    for n, c in reads:
+        fpv = c.func.value.id
+        key = '%s|%s' % (rd.qual, norm(c))
+        # the positioning statement
+        poss = [m for m in g.nodes if m.kind == 'stmt' and isinstance(m.ast, ast.Assign) and isinstance(m.ast.value, ast.Call) and
+                _is_self_method(m.ast.value, SEEKER) and isinstance(m.ast.targets[0], ast.Tuple) and len(m.ast.targets[0].elts) == 2 and
+                norm(m.ast.targets[0].elts[0]) == fpv]
+        ok, why = False, 'the handle does not come from self.%s(...)' % SEEKER
+        if len(poss) == 1:
+            pn = poss[0]
+            offv = norm(pn.ast.value.args[0]) if pn.ast.value.args else None
+            leftv = norm(pn.ast.targets[0].elts[1])
+
+            def transfer(x, st, lab):
+                cur = st
+                if x is pn:
+                    return True
+                for cc in _calls_in(x):
+                    if cc is c:
+                        continue
+                    if isinstance(cc.func, ast.Attribute) and cc.func.attr in ('read', 'readinto', 'seek') and norm(cc.func.value) == fpv:
+                        cur = False
+                    if _is_self_method(cc, SEEKER) or _is_self_method(cc, READER):
+                        cur = False
+                if x.kind == 'stmt' and isinstance(x.ast, (ast.Assign, ast.AugAssign)) and x is not n:
+                    tg = x.ast.targets if isinstance(x.ast, ast.Assign) else [x.ast.target]
+                    if any(norm(t) == offv for t in tg):
+                        cur = False
+                return cur
+            IN = g.forward(False, transfer, lambda a, b: a and b)
+            why = 'a path reaches the read without a fresh self.%s(%s) (the handle is shared with every other reader of the image)' % (SEEKER, offv)
+            if IN[n.id]:
+                # the offset variable: starts at self._offset, advances by len(result)
+                resvar = n.ast.targets[0].id if n.kind == 'stmt' and isinstance(n.ast, ast.Assign) and isinstance(n.ast.targets[0], ast.Name) else None
+                defs = [x.ast for x in g.nodes if x.kind == 'stmt' and isinstance(x.ast, (ast.Assign, ast.AugAssign)) and
+                        any(norm(t) == offv for t in (x.ast.targets if isinstance(x.ast, ast.Assign) else [x.ast.target]))]
+                init = [d for d in defs if isinstance(d, ast.Assign) and norm(d.value) == _self(OFF)]
+                adv = [d for d in defs if isinstance(d, ast.AugAssign) and isinstance(d.op, ast.Add) and resvar and norm(d.value) == 'len(%s)' % resvar]
+                why = 'the offset handed to self.%s does not start at self.%s and advance by the length of each piece read' % (SEEKER, OFF)
+                if len(init) == 1 and len(adv) == 1 and len(defs) == 2:
+                    why = 'the size of the read is not min(bytes left in the part, bytes wanted)'
+                    a0 = c.args[0] if c.args else None
+                    if isinstance(a0, ast.Call) and isinstance(a0.func, ast.Name) and a0.func.id == 'min' and any(norm(x) == leftv for x in a0.args):
+                        ok, why = True, ''
+        obs.append(Ob('SA-SEEK.position', key, ok, ctx.loc(rd, c), why))
+    # no other method touches a handle
+    for fi in ci.methods.values():
+        if fi.name in (READER, SEEKER, '__enter__', '__exit__', 'close'):
+            continue
+        bad = [c for c in ctx.own_nodes(fi) if isinstance(c, ast.Call) and isinstance(c.func, ast.Attribute) and c.func.attr in ('read', 'readinto', 'seek', 'tell') and
+               not (isinstance(c.func.value, ast.Name) and c.func.value.id == 'self')]
+        if bad:
+            obs.append(Ob('SA-SEEK.position', '%s|%s' % (fi.qual, norm(bad[0])), False, ctx.loc(fi, bad[0]),
+                          '%s uses a backing handle directly instead of going through self.%s / self.%s' % (fi.qual, SEEKER, READER)))
+    return obs
 
 
 def _remaining():
@@ -78,6 +226,8 @@ def _pos():
 @props('C16')
 def position(ctx):
     ci, methods = _io_methods(ctx)
+    if _multi(ctx):
+        return _multi_helpers(ctx, ci)
     obs = []
     nreads = 0
     for fi in methods:
@@ -155,7 +305,7 @@ def bound(ctx):
         rd = cfgmod.reaching_defs(g, [p.lstrip('*') for p in fi.params])
         for n in g.nodes:
             for c in _calls_in(n):
-                if _is_self_call(c, FP, 'read'):
+                if _is_read(ctx, c):
                     key = '%s|%s' % (fi.qual, norm(c))
                     if not c.args:
                         obs.append(Ob('SA-SEEK.bound', key, False, ctx.loc(fi, c), 'unbounded read() on the image handle'))
@@ -179,7 +329,7 @@ def stream_pair(ctx):
         reads = []
         for n in g.nodes:
             for c in _calls_in(n):
-                if _is_self_call(c, FP, 'read'):
+                if _is_read(ctx, c) and not (_multi(ctx) and fi.name == READER):
                     reads.append((n, c))
         for rn, c in reads:
             size = c.args[0] if c.args else None
@@ -242,15 +392,16 @@ def seekmethod(ctx):
     # (a) every branch of seek that returns normally assigns _offset
     # (b) each fp.seek(T, 0): the next _offset write W on every path satisfies T == _startpos + new_offset
     writes = [n for n in g.nodes if _writes_self_attr(n, OFF) is not None]
+    multi = _multi(ctx)
     for n in g.nodes:
         for c in _calls_in(n):
-            if not _is_self_call(c, FP, 'seek'):
+            if not (_is_self_method(c, SEEKER) if multi else _is_self_call(c, FP, 'seek')):
                 continue
             key = '%s|%s' % (fi.qual, norm(c))
             if not c.args:
                 obs.append(Ob('SA-SEEK.seekmethod', key, False, ctx.loc(fi, c), 'seek without target'))
                 continue
-            target = lin(c.args[0]) - Lin({_self(START): 1})
+            target = lin(c.args[0]) if multi else lin(c.args[0]) - Lin({_self(START): 1})
             # first offset writes reachable from n without passing another offset write
             seen = set()
             stack = [n]
@@ -285,7 +436,7 @@ def seekmethod(ctx):
                     newoff = None
                 if newoff != target:
                     ok = False
-                    why = 'handle moved to self.%s + (%r) but self.%s becomes %r' % (START, target, OFF, newoff)
+                    why = 'handle moved to %s(%r) but self.%s becomes %r' % ('logical offset ' if multi else 'self.%s + ' % START, target, OFF, newoff)
             obs.append(Ob('SA-SEEK.seekmethod', key, ok, ctx.loc(fi, c), why))
     # every normal return of seek is preceded by an _offset write unless it raised
     def transfer(n, st, lab):
@@ -313,6 +464,11 @@ def seekmethod(ctx):
             for t in n.targets:
                 if isinstance(t, ast.Attribute) and isinstance(t.value, ast.Name) and t.value.id == 'self':
                     init[t.attr] = norm(n.value)
+    if multi:
+        ok = init.get(OFF) == '0' and init.get(LEN) == '0'
+        obs.append(Ob('SA-SEEK.seekmethod', '%s|initial-position' % ent.qual, ok, ctx.loc(ent, ent.node),
+                      '' if ok else 'on entry self.%s must be 0 and self.%s start at 0 before the parts are added (got %s)' % (OFF, LEN, init)))
+        return obs
     ok = init.get(OFF) == '0' and init.get(START) == 'self.%s.tell()' % FP
     obs.append(Ob('SA-SEEK.seekmethod', '%s|initial-position' % ent.qual, ok, ctx.loc(ent, ent.node),
                   '' if ok else 'on entry self.%s must be 0 and self.%s the position of the handle (got %s)' % (OFF, START, init)))
